@@ -62,6 +62,8 @@ type FS struct {
 	Decide func(call string, h *Handle) Expect
 	// DecideCtx, when set, takes precedence over Decide.
 	DecideCtx func(ctx context.Context, call string, h *Handle) Expect
+	// DirIter, when set, provides the listing iterator of every OpenDir.
+	DirIter func() p9p.ReadNext
 }
 
 func New() *FS { return &FS{Reg: map[int]*Handle{}} }
@@ -203,6 +205,9 @@ func (h *Handle) OpenDir(ctx context.Context) (p9p.ReadNext, error) {
 		return nil, ErrFS("opendir")
 	case e.Out == "nil":
 		return nil, nil
+	}
+	if h.fs.DirIter != nil {
+		return h.fs.DirIter(), nil
 	}
 	return func(context.Context) ([]p9p.Dir, error) { return nil, nil }, nil
 }
